@@ -1,4 +1,5 @@
 ; the batch serialiser's encoding encxb(X,Y,Z) (always through 1/Z) equals the single-element encoding encx(X,Y,Z) (fast path for Z == 1): with 1/1 = 1 and v*1 = v
+; props: C07 C19
 (declare-sort Fp 0)
 (declare-const fp_one Fp)
 (declare-fun fp_mul (Fp Fp) Fp)
